@@ -5,15 +5,17 @@
      WF root / WFdoc root trailing   Spec/WF.v: well-formed despanned trees, slot by slot: every decor is legal trivia
                         for its slot (after Display's CR stripping), a stored repr is a token of the scalar's kind
                         denoting it (an absent one needs a scalar the default writer is proved to write), key reprs
-                        spell their keys, keys are distinct, arrays / inline tables hold values only, a table made of
-                        dotted keys has a line of its own, a table that prints no header has one printed below it,
+                        spell their keys, keys are distinct, arrays / inline tables hold values only, a table that has
+                        no key/value line of its own and prints no header — an implicit table, or a table made of dotted
+                        keys whose lines are gone — has a header printed below it,
                         the limits of Spec/Syntax.v, and `order_ok`: the positions do not decrease along the pre-order
                         walk (Display's stable sort by position then leaves the walk's order alone);
      wf_b / wfdoc_b     Proofs/WFBool.v: the decision procedure (tokens by the model's token parsers);
      abs_doc_of root    Proofs/WFTree.v: the data Display of the tree defines — the tree of Spec/Defs.v with, in every
                         table, what its key/value lines define first (values and tables made of dotted keys, a dotted
                         inline table being one) and then its sub-tables / arrays of tables; kind KHeader when a [header]
-                        is printed, KSuper when not, KDotted for tables made of dotted keys;
+                        is printed, KSuper when not, KDotted for tables made of dotted keys that have a line of their
+                        own (one without is only mentioned by the headers below it: KSuper, listed with the sub-tables);
      display_document   Model/Encode.v: Display for DocumentMut.
 
    The route: the printed text HAS A GRAMMAR DERIVATION (Spec/Syntax.v toml_text) whose statements, by the definition
@@ -328,4 +330,30 @@ Definition ex_built_check : bool :=
   aot_ne ex_built && wfdoc_b (render_tbl float_text ex_built) REmpty
   && bytes_eqb (display_document (render_tbl float_text ex_built) REmpty) (txt ("a = 1.5" ++ lf ++ lf ++ "[t.u]" ++ lf ++ "x = 1" ++ lf)).
 Example wfb_ex_built : ex_built_check = true.
+Proof. vm_compute. reflexivity. Qed.
+
+(* a table made of dotted keys whose last key/value line is gone, with a header below it (what Table::insert("b", table())
+   at `a` leaves of `t.a.b = 1`; no parser produces it — a parsed dotted table has a line, parse_WF): outside Spec/WF.v
+   before its dotted-table clause was generalised (the old clause is recomputed here), now well-formed; Display
+   prints only `[t.a.b]` below t's lines, and the data it defines has `a` as a SUPER-table behind the value stored after it *)
+Definition ex_lineless : tbl :=
+  let k (s : string) := mkKey (txt s) None (mkDecor None None) (mkDecor None None) in
+  let v (n : Z) := IValue (VScalar (SInt n) None (mkDecor None None)) in
+  let tb (im dt : bool) (l : list (key * item)) := ITable (Tbl l (mkDecor None None) im dt None None) in
+  Tbl [(k "t", tb false false [(k "x", v 1%Z); (k "a", tb true true [(k "b", tb false false [])]); (k "y", v 2%Z)])]
+      (mkDecor None None) false false None None.
+Definition ex_lineless_check : bool :=
+  wfdoc_b ex_lineless REmpty
+  && match ex_lineless with
+     | Tbl [(_, ITable (Tbl [_; (_, ITable a); _] _ _ _ _ _))] _ _ _ _ _ => t_dotted a && negb (has_line a) && prints_header a
+     | _ => false
+     end
+  && bytes_eqb (display_document ex_lineless REmpty) (txt ("[t]" ++ lf ++ "x = 1" ++ lf ++ "y = 2" ++ lf ++ lf ++ "[t.a.b]" ++ lf))
+  && stree_eqb (abs_doc_of ex_lineless)
+       [(txt "t", NTab KHeader [(txt "x", NVal (DInt 1)); (txt "y", NVal (DInt 2)); (txt "a", NTab KSuper [(txt "b", NTab KHeader [])])])]
+  && match parse_document (display_document ex_lineless REmpty) with
+     | POk d => stree_eqb (abs_doc d) (abs_doc_of ex_lineless)
+     | _ => false
+     end.
+Example wfb_ex_lineless_dotted : ex_lineless_check = true.
 Proof. vm_compute. reflexivity. Qed.
